@@ -9,11 +9,11 @@
 
    Guards: wf (classical indices in range, control value < 2^k); clear / clear_all (no conditional outcome
    probability strictly between 0 and the tolerance; trivial for tolerance 0); for the density-matrix clause
-   dm_safe (no conditioned gate reads a bit stored by an earlier measurement) -- outside dm_safe the code is
-   wrong: dm_is_mixture_refuted, recorded as a known finding. *)
+   dm_guard (tolerance guard along the path the code takes).  The code before fixes/C02-dm-classical-control.diff
+   (dm_run_orig) is refuted: dm_is_mixture_refuted. *)
 From Coq Require Import List Arith NArith Bool.
 From QV Require Import Model.Sim Spec.Branch.
-From QV Require Import Proofs.SimLaws Proofs.SimCond Proofs.SimRun Proofs.SimStats Proofs.SimDM Proofs.SimTiny Proofs.SimTop.
+From QV Require Import Proofs.SimLaws Proofs.SimCond Proofs.SimRun Proofs.SimStats Proofs.SimDM Proofs.SimDMB Proofs.SimTiny Proofs.SimTop.
 Import ListNotations.
 
 (* a gate conditioned on classical bits acts in exactly those branches whose bits equal its condition:
@@ -85,27 +85,28 @@ Theorem run_random_in_branches : forall X, SysLaws X -> forall (c : circ X) s0 c
 Proof. exact run_rand. Qed.
 Print Assumptions run_random_in_branches.
 
-(* density-matrix evolution returns the probability-weighted mixture of the branches -- for circuits in which
-   no conditioned gate reads a bit that an earlier measurement stores into.
-   FULL STATEMENT (without dm_safe) is refuted below. *)
-Theorem dm_is_mixture_partial : forall X, SysLaws X -> forall (c : circ X) s0 cbarg h,
+(* density-matrix evolution returns the probability-weighted mixture of the branches -- EVERY circuit, including
+   gates conditioned on measured bits (the code tracks the ensemble per classical register value:
+   fixes/C02-dm-classical-control.diff).  dm_guard = tolerance guard along the path the code takes (and, on the
+   branch-tracking path, that the run raises no exception and some branch survives). *)
+Theorem dm_is_mixture : forall X, SysLaws X -> forall (c : circ X) s0 cbarg h,
   wf X (c_ncb X c) (c_ops X c) = true -> valid_arg h cbarg ->
-  dm_safe X (c_ops X c) = true ->
-  dm_clear X (c_ops X c) (init_cbits (c_ncb X c) (arg_val h cbarg)) (dm_of X s0) = true ->
+  dm_guard X (c_ncb X c) (c_ops X c) (init_cbits (c_ncb X c) (arg_val h cbarg)) (dm_of X s0) = true ->
   exists h' ref, dm_run X false c (dm_of X s0) cbarg h
                  = Ok (h', (mixture X (c_ops X c) s0 (init_cbits (c_ncb X c) (arg_val h cbarg)), f1 X, ref))
                  /\ untouched h h'.
-Proof. exact dm_run_mixture. Qed.
-Print Assumptions dm_is_mixture_partial.
+Proof. exact dm_run_mixture_all. Qed.
+Print Assumptions dm_is_mixture.
 
 (* ---- refuted statements ------------------------------------------------------------------------------------ *)
-(* density-matrix mode ignores the classical store: H; measure -> c0; X if c0 == 1 (known finding) *)
+(* the density-matrix code BEFORE fixes/C02-dm-classical-control.diff (dm_run_orig) ignores the classical store:
+   H; measure -> c0; X if c0 == 1 *)
 Theorem dm_is_mixture_refuted :
   exists (c : circ tiny) s0,
     wf tiny (c_ncb tiny c) (c_ops tiny c) = true /\ nrm tiny s0 = f1 tiny /\
     dm_clear tiny (c_ops tiny c) (init_cbits (c_ncb tiny c) None) (dm_of tiny s0) = true /\
     dm_safe tiny (c_ops tiny c) = false /\
-    exists h' rho p ref, dm_run tiny false c (dm_of tiny s0) None [] = Ok (h', (rho, p, ref)) /\
+    exists h' rho p ref, dm_run_orig tiny false c (dm_of tiny s0) None [] = Ok (h', (rho, p, ref)) /\
       rho <> mixture tiny (c_ops tiny c) s0 (init_cbits (c_ncb tiny c) None).
 Proof. exact SimTop.dm_is_mixture_refuted. Qed.
 Print Assumptions dm_is_mixture_refuted.
@@ -195,11 +196,17 @@ Example ex_run_statistics_given_bits :
     NoDup (refs_of tiny es) /\ Forall (fun x => 1 <= x) (refs_of tiny es).
 Proof. exact (run_statistics_branches tiny tiny_laws ex_circ2 ket0 (Some 0) [[1; 0]] ex2_wf (le_n 1) ket0_nrm ex2_clear_all). Qed.
 
-(* density-matrix clause on a circuit with a measurement and a conditioned gate that the guard accepts *)
+(* density-matrix clause: a conditioned gate reading an unmeasured bit (old code path) ... *)
 Example ex_dm :
   exists h' ref, dm_run tiny false ex_circ3 (dm_of tiny ket0) (Some 0) [[0; 1]]
                  = Ok (h', (mixture tiny ex_ops3 ket0 [0; 1], f1 tiny, ref)) /\ untouched [[0; 1]] h'.
-Proof. exact (dm_is_mixture_partial tiny tiny_laws ex_circ3 ket0 (Some 0) [[0; 1]] ex3_wf (le_n 1) ex3_safe ex3_clear). Qed.
+Proof. exact (dm_is_mixture tiny tiny_laws ex_circ3 ket0 (Some 0) [[0; 1]] ex3_wf (le_n 1) ex3_guard). Qed.
+
+(* ... and the circuit that refutes the old code (H; measure -> c0; X if c0 == 1): branch-tracking path *)
+Example ex_dm_measured_bit :
+  exists h' ref, dm_run tiny false dm_bad_circ (dm_of tiny ket0) None []
+                 = Ok (h', (mixture tiny (c_ops tiny dm_bad_circ) ket0 (init_cbits 1 None), f1 tiny, ref)) /\ untouched [] h'.
+Proof. exact (dm_is_mixture tiny tiny_laws dm_bad_circ ket0 None [] dm_bad_wf I dm_bad_guard). Qed.
 
 Example ex_cond : check_cc [1; 0] 2%N (Some [0; 1; 1]) = Ok (cond_true [1; 0] 2%N [0; 1; 1]) /\ cond_true [1; 0] 2%N [0; 1; 1] = true
                   /\ cond_true [0; 1] 2%N [0; 1; 1] = false.
